@@ -336,6 +336,7 @@ func runCase(c Case) *pbt.Result {
 	if g.h.Sizeof() != 4*((m+5)/6) {
 		return pbt.Fail("p=%d: Sizeof() = %d, want %d (ceil(m/6) words)", c.P, g.h.Sizeof(), 4*((m+5)/6))
 	}
+	var heldMid, wantMid []byte
 	for i, x := range items {
 		want := r.offer(refHashLong(x))
 		got := g.offer(x)
@@ -344,12 +345,18 @@ func runCase(c Case) *pbt.Result {
 				i, x, refHashLong(x), refHashLong(x)>>(32-uint(c.P)), got, map[bool]string{true: "increased", false: "did not increase"}[want])
 		}
 		if i == len(items)/2 {
-			if gb, rb := g.h.GetBytes(), r.bytes(); !bytes.Equal(gb, rb) {
+			gb, rb := g.h.GetBytes(), r.bytes()
+			if !bytes.Equal(gb, rb) {
 				return pbt.Fail("after %d offers: GetBytes() differs from the reference serialisation: %s", i+1, diffAt(gb, rb))
 			}
+			// the serialisation taken now is kept as it was handed out (a snapshot on its way to the collector)
+			heldMid, wantMid = gb, append([]byte(nil), rb...)
 		}
 	}
 	full := snap(g.h)
+	if heldMid != nil && !bytes.Equal(heldMid, wantMid) {
+		return pbt.Fail("the bytes GetBytes() returned after %d offers changed when the counter took %d more offers and was serialised again: %s", len(items)/2+1, len(items)-len(items)/2-1, diffAt(heldMid, wantMid))
+	}
 	if rb := r.bytes(); !bytes.Equal(full, rb) {
 		return pbt.Fail("after %d offers (p=%d): GetBytes() differs from the reference serialisation: %s\n golib %x\n ref   %x", len(items), c.P, diffAt(full, rb), trunc(full), trunc(rb))
 	}
